@@ -4,6 +4,7 @@ go 1.14
 
 require (
 	github.com/anishathalye/porcupine v1.3.0
+	github.com/benbjohnson/clock v0.0.0-20161215174838-7dc76406b6d3
 	github.com/buzzfeed/sso v0.0.0
 	github.com/datadog/datadog-go v0.0.0-20180822151419-281ae9f2d895
 	github.com/sirupsen/logrus v1.4.2
